@@ -87,6 +87,8 @@ type Params struct {
 	// Tail appends directed scripts after the history proper, driven by a PRNG of
 	// their own: the history up to there is the one the same seed gave before
 	Tail bool `json:",omitempty"`
+	// TailForce: run exactly these tail scripts, in this order
+	TailForce []int `json:",omitempty"`
 	// PrefixLess ends the tail with services lines that lack the prefix the protocol
 	// demands (outside C06's domain; C01 asks what they do on every replica)
 	PrefixLess bool `json:",omitempty"`
@@ -894,6 +896,9 @@ func (g *Gen) tail() {
 	g.R = rand.New(rand.NewSource(g.seed*7919 + 104729))
 	order := g.R.Perm(5)
 	n := 2 + g.R.Intn(2)
+	if len(g.P.TailForce) > 0 {
+		order, n = g.P.TailForce, len(g.P.TailForce)
+	}
 	for _, sc := range order[:n] {
 		g.tailScenario(sc)
 	}
@@ -994,9 +999,17 @@ func (g *Gen) tailScenario(sc int) {
 		if g.P.NoConfig {
 			return
 		}
+		// first a short expiration, so that "not set" differs from what was in force before
 		g.rev++
 		g.hasCfg = true
 		g.captcha = false
+		g.emit(Entry{Type: int64(robust.Config), Data: fmt.Sprintf("SessionExpiration = \"1m0s\"\nPostMessageCooloff = \"0\"\n[IRC]\n  [[IRC.Operators]]\n    Name = %q\n    Password = %q\n  [[IRC.Services]]\n    Password = %q\n", OperName, OperPass, SvcPass), Revision: g.rev, Cmd: "CONFIG"})
+		for _, s := range g.regs() {
+			if g.R.Intn(3) == 0 {
+				g.line(s, "PING :short expiration")
+			}
+		}
+		g.rev++
 		toml := fmt.Sprintf("PostMessageCooloff = \"0\"\n[IRC]\n  [[IRC.Operators]]\n    Name = %q\n    Password = %q\n  [[IRC.Services]]\n    Password = %q\n", OperName, OperPass, SvcPass)
 		g.emit(Entry{Type: int64(robust.Config), Data: toml, Revision: g.rev, Cmd: "CONFIG"})
 		for _, s := range g.regs() {
@@ -1024,9 +1037,15 @@ func (g *Gen) tailScenario(sc int) {
 		g.line(b, "JOIN #svsp")
 		g.line(link, assemble(link.pseudo[0], "SVSPART", []string{a.nick, "#svsp"}, false, ""))
 		g.line(b, "WHOIS "+a.nick)
+		// the services id without a value ("logged out"): an empty string is a value of its own
+		g.line(link, assemble(link.pseudo[0], "SVSMODE", []string{b.nick, g.pick([]string{"+d", "-d", "+d-r", "+rd"})}, false, ""))
 		g.line(a, "NICK "+a.nick+"y")
 		g.track(a)
 		g.line(a, "PRIVMSG #svsp :am i still here")
+		if g.R.Intn(2) == 0 {
+			// a second link: its SERVER burst prints every user with modes and services id
+			g.makeLink()
+		}
 	}
 }
 
